@@ -32,6 +32,14 @@ CHECKS['C16'] = dict(text="Theorems: (Core, all schedules) with order_tasks the 
   "constructor or the setter. Tie: selection kernel and reset/setter bodies regenerated from source, every observed "
   "add_task replayed through the kernel, end-to-end worker-id-per-task oracle over call histories on 4 start methods.",
   ref="5/C16", technique="Coq proof (routing invariant over all schedules + induction over call histories) + kernel replay + oracle")
+CHECKS['C12'] = dict(text="Theorems (Core, all schedules): with lifespan L and chunks of at most cmax tasks every worker instance "
+  "executes at most L+cmax-1 tasks and never has a chunk in progress once it completed L; the successor starts fresh in the "
+  "same slot; results are a permutation of the inputs across restarts. Death-watch race model with one atomic step per "
+  "read, read order generated from pool._unexpected_death_handler: no kill => the watch never fires, for every interleaving "
+  "with exits and restarts (the pre-fix order is refuted by a concrete schedule). Tie: generated guards and read order, "
+  "instance logs replayed through Core.step, per-(instance,call) task counts from the user function's log over single calls "
+  "and keep-alive histories with changing lifespans, optional delays inside the watch.", ref="5/C12",
+  technique="Coq proof (per-instance counting invariant; race model over generated read order) + trace conformance + oracle")
 PENDING = {}
 props = [json.loads(l) for l in open(os.path.join(V, 'properties.jsonl'))]
 m = dict(version=1,
